@@ -214,7 +214,7 @@ def run(prog: Program, col: Collector, refs: Refs, cat: Catalogue, rule_log: str
 _DOMAIN = {  # input classes inside the op's domain, per argument (default: all of the extended reals)
     "log": [[ZERO, POS, "PINF"]], "log1p": [[ZERO, POS, "PINF"]], "sqrt": [[ZERO, POS, "PINF"]], "reciprocal": [[NEG, POS, "PINF", NINF]],
     "truediv": [None, [NEG, POS, "PINF", NINF]], "safediv": [[NEG, ZERO, POS], [ZERO, POS]], "safesub": [sorted(LOGDOM), sorted(LOGDOM)],
-    "pow": [[ZERO, POS], [NEG, ZERO, POS]], "atanh": [[ZERO]], "logaddexp": [sorted(LOGDOM), sorted(LOGDOM)], "sample": [sorted(LOGDOM), sorted(LOGDOM)],
+    "pow": [[ZERO, POS], [NEG, ZERO, POS]], "logsumexp": [sorted(LOGDOM)], "amax": [sorted(LOGDOM) + ["PINF"]], "atanh": [[ZERO]], "logaddexp": [sorted(LOGDOM), sorted(LOGDOM)], "sample": [sorted(LOGDOM), sorted(LOGDOM)],
 }
 
 
